@@ -351,7 +351,7 @@ func runR_C18(c *Ctx) {
 	// ==-comparable land in different buckets and f is invoked twice (confirmed on the real binary; known finding shared with C04)
 	hashCoreRules(c, true)
 	sortLessRules(c)
-	compareCoreRules(c)
+	compareCoreRules(c, false)
 	// without the leaf-semantics rule: Equal's nil-blindness for []byte components is masked in mem by the hash, which
 	// separates nil from empty (checked on the real binary: both are evaluated, both results are right)
 	equalCoreRules(c, false)
